@@ -5,9 +5,10 @@ CONSTANTS
   ObfsMin = 3
   ObfsMax = 4
   MaxRead = 3
+  MarkMode = "release"
   MaxW = 2
   Cases <- MCCases
 VIEW view
-INVARIANTS NoBytes NoEarlyClose KeepsReading MatchSound ConsumeExact FoundWhenComplete NeverDropsMatching MarkedUsed
+INVARIANTS NoBytes NoEarlyClose KeepsReading MatchSound ConsumeExact FoundWhenComplete NeverDropsMatching MarkedUsed RegistryFree
 PROPERTIES Recognised Terminates
 CHECK_DEADLOCK FALSE
